@@ -127,6 +127,10 @@ def conclude(prop, tier, seed, mod, results, lost, jobs, wall):
     for v in violations:
         vkinds.setdefault(v['kind'], v)
     vlines = []
+    kcount = collections.Counter(v['kind'] for v in violations)
+    if os.environ.get('VERIF_DEBUG'):
+        for v in violations:
+            print('  DEBUG', v['kind'], json.dumps(v['detail'], default=str)[:int(os.environ.get('VERIF_DEBUG_W', '300'))])
     for kind, v in list(vkinds.items())[:10]:
         os.makedirs(rdir, exist_ok=True)
         blob = json.dumps({'property': prop, 'tier': tier, 'seed': seed, 'kind': kind, 'detail': v['detail'], 'case': v['case']},
@@ -134,7 +138,7 @@ def conclude(prop, tier, seed, mod, results, lost, jobs, wall):
         path = os.path.join(rdir, hashlib.sha1(blob.encode()).hexdigest()[:12] + '.json')
         open(path, 'w').write(blob)
         vlines.append('VIOLATION property=%s replay=%s' % (prop, path))
-        lines.append('  kind=%s detail=%s' % (kind, json.dumps(v['detail'], default=str)[:600]))
+        lines.append('  kind=%s (x%d among recorded) detail=%s' % (kind, kcount[kind], json.dumps(v['detail'], default=str)[:600]))
     # inconclusive?
     reasons = []
     need = getattr(mod, 'MIN_COUNTERS', {})
